@@ -70,8 +70,8 @@ theorem C01_refines (e : Expr) (env : Nat → Dual ℝ) (hwf : ∀ i, (env i).WF
   evalD_refines e env hwf v
 
 /-- Mixing floats and duals in either operand position gives the same answer (value and sensitivity
-to every name) as promoting the float to a constant — for +, −, × in both positions and ÷ by a
-float. -/
+to every name) as promoting the float to a constant — for +, −, × in both positions (÷ in both
+positions: `C01_mixed_div`). -/
 theorem C01_mixed_eq_promoted (f : ℝ) (d : Dual ℝ) (hd : d.WF) (v : String) :
     jetOf (Dual.addF d f) v = jetOf (Dual.add false d (Dual.new f [])) v ∧
     jetOf (Dual.fAdd f d) v = jetOf (Dual.add false (Dual.new f []) d) v ∧
@@ -111,6 +111,44 @@ theorem C01_mixed_eq_promoted (f : ℝ) (d : Dual ℝ) (hd : d.WF) (v : String) 
     · simp only [jetOf_fst, M2.real, hr]; simp only [Dual.fMul]; ring
     · simp only [jetOf_snd, M2.den, hz, hr, zero_mul, zero_add]
       rw [show den (Dual.fMul f d) v = f * den d v from den_scaleL d f hd _ v]; ring
+
+theorem rpow_neg_two (x : ℝ) : x ^ ((-1 : ℝ) - 1) = 1 / (x * x) := by
+  have : ((-1 : ℝ) - 1) = ((-2 : ℤ) : ℝ) := by norm_num
+  rw [this, Real.rpow_intCast]
+  rw [zpow_neg, zpow_ofNat, pow_two, one_div]
+
+/-- …and for division: a dual number divided by a float, and a float divided by a dual number , equal the division with the float promoted to a constant. -/
+theorem C01_mixed_div (f : ℝ) (d : Dual ℝ) (hd : d.WF) (v : String) :
+    jetOf (Dual.divF d f) v = jetOf (Dual.div false d (Dual.new f [])) v ∧
+    jetOf (Dual.fDiv f d) v = jetOf (Dual.div false (Dual.new f []) d) v := by
+  have hz : den (Dual.new f []) v = 0 := lookup_not_mem _ _ _ (by simp [Dual.new, dedup])
+  have wn := wf_new' f []
+  constructor
+  · -- d / f
+    have wb : (⟨1 / (Dual.new f []).real, (Dual.new f []).vars,
+        vscaleL (-1 / ((Dual.new f []).real * (Dual.new f []).real)) (Dual.new f []).dual⟩ : Dual ℝ).WF :=
+      wf_scaleL _ _ _ wn
+    have M := mul_spec false d _ hd wb (by simp)
+    have hb : den (⟨1 / (Dual.new f []).real, (Dual.new f []).vars,
+        vscaleL (-1 / ((Dual.new f []).real * (Dual.new f []).real)) (Dual.new f []).dual⟩ : Dual ℝ) v = 0 := by
+      rw [den_scaleL (Dual.new f []) _ wn _ v, hz, mul_zero]
+    refine Prod.ext ?_ ?_
+    · simp only [jetOf_fst, Dual.div, M.real]; simp [Dual.divF, Dual.new, div_eq_mul_inv]
+    · simp only [jetOf_snd, Dual.div, M.den, hb]
+      rw [show den (Dual.divF d f) v = (1 / f) * den d v from den_scaleL d (1 / f) hd _ v]
+      simp [Dual.new]; ring
+  · -- f / d
+    have wb : (⟨1 / d.real, d.vars, vscaleL (-1 / (d.real * d.real)) d.dual⟩ : Dual ℝ).WF :=
+      wf_scaleL _ _ _ hd
+    have M := mul_spec false (Dual.new f []) _ wn wb (by simp)
+    have hb : den (⟨1 / d.real, d.vars, vscaleL (-1 / (d.real * d.real)) d.dual⟩ : Dual ℝ) v
+        = -1 / (d.real * d.real) * den d v := den_scaleL d _ hd _ v
+    refine Prod.ext ?_ ?_
+    · simp only [jetOf_fst, Dual.div, M.real]
+      simp [Dual.fDiv, Dual.new, div_eq_mul_inv]
+    · simp only [jetOf_snd, Dual.div, M.den, hb, hz]
+      rw [show den (Dual.fDiv f d) v = (-f / (d.real * d.real)) * den d v from den_scaleL d _ hd _ v]
+      simp [Dual.new]; ring
 
 /-- Owned and borrowed negation agree (the two macro expansions compute `-x` and `x * -1`). -/
 theorem C01_variants (d : Dual ℝ) (hd : d.WF) (v : String) :
